@@ -70,6 +70,14 @@ Theorem C17_failing_link_open_releases : forall v fuel w a n a',
 Proof. exact failing_link_open_ledger. Qed.
 Print Assumptions C17_failing_link_open_releases.
 
+(* a link to an EXISTING file whose stored PATH does not exist there (ADFI_chase_link: open the file, ADFI_link_add, then
+   look the path up): the traversal fails, and the file it opened on the way is owned by links[] of the referencing file --
+   the invariant still holds, so C17_refcount_balanced covers sessions with such failing lookups *)
+Theorem C17_failing_link_lookup_owned : forall w a U fuel cur n a' r,
+  Inv w a U [] -> chase Cur fuel w a cur n true = Some (a', r) -> r = None /\ Inv w a' U [].
+Proof. exact failing_lookup_owned. Qed.
+Print Assumptions C17_failing_link_lookup_owned.
+
 (* the MLL table (cg_open / cg_close), [handles_released] of Refcount.v: after any session in which every successfully
    opened file has been closed the table is released and no cgio handle acquired by cg_open is still held *)
 Theorem C17_handles_released : handles_released MCur.
@@ -94,7 +102,7 @@ Print Assumptions C17_refcount_old_refuted_witness.
 
 (* the premature close itself: A (slot 0) in use and listing slot 2 in links[], slot 2 (B) already closed *)
 Theorem C17_premature_close_old_refuted :
-  exists s rs, run Old 1000 w1 io_init [] [OOpen 0 false; OOpen 2 false; OWalk 2 [0; 1]; OClose 2] = Some (s, [1], rs) /\
+  exists s rs, run Old 1000 w1 io_init [] [OOpen 0 false; OOpen 2 false; OWalk 2 [(0, false); (1, false)]; OClose 2] = Some (s, [1], rs) /\
                in_use (slot_at (io_adf s) 0) = 1 /\ links (slot_at (io_adf s) 0) = [2] /\
                in_use (slot_at (io_adf s) 2) = 0 /\ ledger (io_adf s) = [0].
 Proof. exact refuted_premature_close. Qed.
@@ -126,9 +134,15 @@ Proof. exact fixA_w1_clean. Qed.
 
 (* the invariant is satisfiable by a non-trivial state: three files open, two link entries, one shared target *)
 Example C17_invariant_example :
-  exists s rs, run Cur 1000 w1 io_init [] [OOpen 0 false; OOpen 2 false; OWalk 2 [0; 1]] = Some (s, [2; 1], rs) /\
+  exists s rs, run Cur 1000 w1 io_init [] [OOpen 0 false; OOpen 2 false; OWalk 2 [(0, false); (1, false)]] = Some (s, [2; 1], rs) /\
                IOInv w1 s [2; 1] /\ in_use (slot_at (io_adf s) 0) = 2 /\ ledger (io_adf s) = [1; 2; 0].
 Proof. exact invariant_example. Qed.
+
+Example C17_dangling_path_example :
+  exists s rs, run Cur 1000 w3 io_init [] [OOpen 0 false; OWalk 1 [(1, true)]] = Some (s, [1], rs) /\
+               rs = [ResOpen (Some 1); ResWalk false] /\ ledger (io_adf s) = [1; 0] /\ links (slot_at (io_adf s) 0) = [1] /\
+  exists s' rs', run Cur 1000 w3 io_init [] [OOpen 0 false; OWalk 1 [(1, true)]; OClose 1] = Some (s', [], rs') /\ cleanb s' = true.
+Proof. exact dangling_example. Qed.
 
 Example C17_mll_example :
   exists m, mrun MCur mll_init [] [MOpen OSuccess; MOpen OLateFail; MOpen OSuccess; MClose 1 true; MClose 3 true] = (m, []) /\
